@@ -21,6 +21,8 @@ type CaseSpec struct {
 	Stdin    []byte
 	// StdinStalls: stdin is a pipe that delivers Stdin and then stays open without data (a stalled producer)
 	StdinStalls bool
+	// StdoutHold: nobody reads the scanner's stdout for this long (a slow consumer: the pipe fills up)
+	StdoutHold time.Duration
 	Timeout  time.Duration // watchdog; firing is judged by the parked criterion, never by itself
 	Sniff    []string      // devices on which sender-side kernel timestamps are taken
 	Setup    func(w *World)
@@ -218,6 +220,9 @@ func RunCase(sx string, spec *CaseSpec) (res *CaseResult) {
 	go func() {
 		defer og.Done()
 		r := bufio.NewReaderSize(so, 1<<20)
+		if spec.StdoutHold > 0 {
+			time.Sleep(spec.StdoutHold)
+		}
 		for {
 			line, err := r.ReadString('\n')
 			if len(line) > 0 {
